@@ -92,13 +92,18 @@ def gen_ops(rng, n_shots, n_calcs, length):
             ops.append(["danger", i, c, 450.0, rng.choice([100.0, 300.0, 440.0, 2000.0]), rng.choice([0.5, 3.0])])
         elif k < 0.88:
             ops.append(["model", i, rng.choice(["multi", "plain", "multi_dicts"])])
-        elif k < 0.93:
+        elif k < 0.91:
             ops.append(["fire", i, c, 60000.0, 6000.0, rng.random() < 0.5, 0.0])      # beyond reach: RangeError
-        elif k < 0.97:
+        elif k < 0.94:
             ops.append(["unit_error", i])
         else:
+            # use the shot, let the caller modify it, use it again with the same calculator
+            r = rng.choice([150.0, 300.0, 600.0])
+            use = rng.choice([["fire", i, c, r, r / 3, rng.random() < 0.4, 0.0], ["zero", i, c, 150.0], ["elev", i, c, 300.0]])
+            ops.append(list(use))
             ops.append(["mutate", i, rng.choice(["bc", "bullet", "table_inplace", "wind_until", "wind_append", "look", "mv", "atmo",
                                                  "sight_height", "twist"]), round(rng.uniform(0.7, 1.4), 3)])
+            ops.append(list(use))
     return ops
 
 
